@@ -119,7 +119,8 @@ claim("C10", "E1", "exhaustive should_rerun decision table + hypothesis generate
 
 _E2NOTE = ("Real parser (third-party Cartesian parser memoised and self-checked); lazy inputs are expanded by a simulated "
            "all-PASS traversal at the E1 seams; selections always name a primary test set; inputs above a size bound are "
-           "skipped and counted; only the shipped suite (no generated suites).")
+           "skipped and counted; besides the shipped suite, generated suites with a random known setup DAG (G2: one level of "
+           "cloning, image states below customize).")
 claim("C06", "E2", "hypothesis generated selections/restrictions/worker sets -> parsed graph vs structural invariants",
       "Generated graph inputs (selection grammar x per-vm restrictions incl. none x worker sets incl. restricted nets and "
       "clusters x eager or lazy, plus a second image per vm to obtain multi-object edges) are parsed by the real code and "
@@ -132,8 +133,10 @@ claim("C07", "E2", "hypothesis generated graph inputs vs independent resolver (o
       "For every node and object with a declared dependency the attached parents must be producers matched by an own "
       "implementation of the restriction algebra over the separately parsed universe of test names, none missing, none "
       "spurious, none duplicated per worker (one representation per test, also across test sets), and a dependency "
-      "resolving to several producers must be cloned once per producer (clone count = producer count).",
-      _E2NOTE + " Oracle A of the design (generated suites with a known DAG) is not built; the resolver is oracle B.")
+      "resolving to several producers must be cloned once per producer (clone count = producer count, pairwise "
+      "different branch states); for generated suites the whole graph must equal the known DAG.",
+      _E2NOTE + " Oracle A: for generated suites the exported nodes and edges must equal the generator's DAG; oracle B: "
+      "the resolver, for the shipped suite.")
 claim("C09", "E2", "hypothesis generated graph inputs: worker-copy isomorphism, bridging/register sharing, lazy vs eager differential, double parse",
       "Per generated input: (1) the copies of all workers are equal up to naming, a node may be missing only where the "
       "worker's restrictions (own matcher) exclude it or everything that needs it; (2) equivalent nodes are bridged "
